@@ -518,6 +518,21 @@ theorem kleinOfArc_eq_p2k (c u : K × K) (ρ : K) (hc : dot2 c c = 1 + ρ ^ 2) (
       = (1 + dot2 (c.1 + u.1, c.2 + u.2) (c.1 + u.1, c.2 + u.2)) / 2 := by
   unfold dot2 at *; linarith
 
+/-- on the circle, the pair `kleinOfArc c u` is `hyperbolic.poincare_to_kleinian` (the chart map `p2k` of the
+model) of the point `U = c + u` -/
+theorem kleinOfArc_eq_p2k_point (c u : K × K) (ρ : K) (hc : dot2 c c = 1 + ρ ^ 2) (hu : dot2 u u = ρ ^ 2) :
+    (![(kleinOfArc c u).1, (kleinOfArc c u).2] : Fin 2 → K) = p2k ![c.1 + u.1, c.2 + u.2] := by
+  have h := kleinOfArc_eq_p2k c u ρ hc hu
+  have hn : nsq ![c.1 + u.1, c.2 + u.2] = dot2 (c.1 + u.1, c.2 + u.2) (c.1 + u.1, c.2 + u.2) := by
+    simp [nsq, dot, Fin.sum_univ_two, dot2]
+  have key : ∀ x N : K, x / ((1 + N) / 2) = x * (2 / (1 + N)) := fun x N => by
+    rw [div_div_eq_mul_div, mul_div_assoc]
+  funext i
+  unfold kleinOfArc p2k
+  rw [h, hn]
+  simp only [key]
+  fin_cases i <;> simp
+
 /-- **every point of the reported arc is on the hyperbolic segment**: on a circle orthogonal to
 the unit circle, with ends `A = c + a`, `B = c + b` inside the closed disk and `a × b > 0` (the
 order `short_arc` returns), every point `W = c + w` of the counter-clockwise arc from `a` to `b`
